@@ -2,7 +2,7 @@
    Line format:  name arg1 arg2 ... | out1 out2 ...     ("-" is the empty byte string)
    Without "|" the model's answer is printed instead of compared. *)
 type byte = Model.byte
-let dispatch = Model.dispatch
+let dispatch = Model.dispatch2
 
 let byte_of_int (i : int) : byte = Obj.magic i      (* constant constructors X00..Xff are 0..255 *)
 let int_of_byte (b : byte) : int = Obj.magic b
